@@ -99,3 +99,44 @@ End Run.
 (* the expression "value" never raises *)
 Definition wf_mspec (m: mspec) : Prop :=
   match m with NM _ true dec => forall d, dec d = Some d | _ => True end.
+
+(* ------------------------------------------------------------------ *)
+(* the same semantics with the class of an exception that leaves the method:
+   XValueError = the method's own final raise (ValueError(value) / InvalidFieldValue, a ValueError),
+   XForeign = an exception of a member expression escaping (any class) *)
+Inductive xres := XRet (v: uv) | XValueError | XForeign.
+
+Section RunX.
+  Variable co : skind -> uv -> option uv.
+
+  Definition run_bline_x (b: bline) (d: uv) : option xres :=
+    match b with
+    | BIfRet c => if cond_holds c d then Some (XRet d) else None
+    | BRet m => match expr_of co m d with Some x => Some (XRet x) | None => Some XForeign end
+    end.
+
+  Fixpoint run_block_x (bs: list bline) (d: uv) : option xres :=
+    match bs with
+    | [] => None
+    | b :: r => match run_bline_x b d with Some o => Some o | None => run_block_x r d end
+    end.
+
+  Definition run_line_x (l: line) (d: uv) : option xres :=
+    match l with
+    | LPlain b => run_bline_x b d
+    | LTry bs => match run_block_x bs d with
+                 | Some (XRet x) => Some (XRet x)
+                 | _ => None end                      (* except Exception: pass *)
+    | LTryRet m => match expr_of co m d with Some x => Some (XRet x) | None => None end
+    | LRaise => Some XValueError
+    | LValueType => None
+    end.
+
+  Fixpoint run_lines_x (ls: list line) (d: uv) : xres :=
+    match ls with
+    | [] => XForeign
+    | l :: r => match run_line_x l d with Some o => o | None => run_lines_x r d end
+    end.
+End RunX.
+
+Definition xres_opt (r: xres) : option uv := match r with XRet v => Some v | _ => None end.
